@@ -73,6 +73,7 @@ fn main() {
                 match name {
                     "AffItem" => seq::run_random_case::<AffItem>(cs, &mut rep, true),
                     "WordItem" => seq::run_random_case::<WordItem>(cs, &mut rep, true),
+                    "ProgItem" => seq::run_random_case::<ProgItem>(cs, &mut rep, true),
                     _ => panic!("unknown item"),
                 }
                 report.merge(rep);
@@ -85,7 +86,9 @@ fn main() {
                 while let Some((lo, hi)) = q.take_block(32) {
                     for idx in lo..hi {
                         let cs = mix(&[seed, 0xC03, idx]);
-                        if idx % 2 == 0 {
+                        if idx % 5 == 4 {
+                            seq::run_random_case::<ProgItem>(cs, rep, false);
+                        } else if idx % 2 == 0 {
                             seq::run_random_case::<WordItem>(cs, rep, false);
                         } else {
                             seq::run_random_case::<AffItem>(cs, rep, false);
@@ -106,6 +109,7 @@ fn main() {
                     match name.as_str() {
                         "AffItem" => seq::run_deep_case::<AffItem>(cs, &mut rep, true),
                         "WordItem" => seq::run_deep_case::<WordItem>(cs, &mut rep, true),
+                        "ProgItem" => seq::run_deep_case::<ProgItem>(cs, &mut rep, true),
                         _ => panic!("unknown item"),
                     }
                     rep
@@ -119,7 +123,9 @@ fn main() {
                 rep.sample_cap = 0;
                 while let Some(idx) = q.take() {
                     let cs = mix(&[seed, 0xDEE9, idx]);
-                    if idx % 2 == 0 {
+                    if idx % 5 == 4 {
+                        seq::run_deep_case::<ProgItem>(cs, rep, false);
+                    } else if idx % 2 == 0 {
                         seq::run_deep_case::<WordItem>(cs, rep, false);
                     } else {
                         seq::run_deep_case::<AffItem>(cs, rep, false);
